@@ -280,13 +280,15 @@ func H_C02_structural() {
 		"{{ f(" + f + " }}",
 	}
 	// the same mistakes under custom delimiters whose first bytes differ from the comment's
+	// (configuration 3: "[[[ ]]]" with the default comment markers "{* *}")
 	custom := []string{
-		"t[[ x ]] [* " + f,
-		"[[ x ]]" + f + "[* c",
-		"[* " + f + "[[ x ]]",
-		"[[ if a ]]" + f,
-		f + "[[ end ]]",
-		"t [* c *] [[ \"" + f,
+		"t[[[ x ]]] {* " + f,
+		"[[[ x ]]]" + f + "{* c",
+		"{* " + f + "[[[ x ]]]",
+		"{* " + f,
+		"[[[ if a ]]]" + f,
+		f + "[[[ end ]]]",
+		"t {* c *} [[[ \"" + f,
 	}
 	c := ndChoice("case", len(cases)+len(custom))
 	var err error
@@ -296,7 +298,7 @@ func H_C02_structural() {
 		_, err = c02Check(set, "/t.jet", cases[c])
 	} else {
 		vfAssume(!hxContains(f, "[") && !hxContains(f, "]"))
-		_, err = c02Check(c02Set(1), "/t.jet", custom[c-len(cases)])
+		_, err = c02Check(c02Set(3), "/t.jet", custom[c-len(cases)])
 	}
 	vfReach("checked")
 	vfAssert(err != nil, "structural mistake is reported")
